@@ -121,6 +121,12 @@ def register():
         _log("root", "boom", x)
         raise Exception("boom")
 
+    @command(volatile=False)
+    def nvol(x):
+        # registered with an explicit volatile=False: it does not MAKE a result volatile, and it must not make a volatile input cacheable
+        _log("root", "nvol", x)
+        return x
+
     @command(volatile=True)
     def vol(x):
         _log("root", "vol", x)
@@ -232,7 +238,7 @@ def register():
 
 # commands of liquer.ext.basic that belong to the vocabulary (their semantics are mirrored in Vocab.lean too)
 LIBRARY_COMMANDS = ["let", "flag", "state_variable", "ns"]
-VOCAB = ["one", "num", "hello", "vals", "add", "cat", "rep", "argsc", "fl", "bo", "ident", "boom", "vol", "nocache", "app", "sub",
+VOCAB = ["one", "num", "hello", "vals", "add", "cat", "rep", "argsc", "fl", "bo", "ident", "boom", "vol", "nvol", "nocache", "app", "sub",
          "attr1", "attr2", "getvar", "only", "tnum"] + LIBRARY_COMMANDS
 
 # pool of float argument texts; the translator emits (text, repr(float(text)) | invalid) for each
